@@ -88,6 +88,15 @@ Section Rnd.
     fun_alt sh d (Some key) (Some seed) None None = fun_alt sh d None None key seed.
   Proof. reflexivity. Qed.
 
+  (** binder independence: key as the last positional argument (exactly num_params positional
+      arguments, seed -- if any -- by keyword) = key by keyword; key and seed both positional =
+      both by keyword; a positional None is the same as an absent argument *)
+  Theorem binder_independent : forall sh d key seed,
+    fun_alt sh d (Some key) None None seed = fun_alt sh d None None key seed /\
+    fun_alt sh d (Some key) (Some seed) None None = fun_alt sh d None None key seed /\
+    fun_alt sh d (Some None) (Some None) key seed = fun_alt sh d None None None None.
+  Proof. intros. repeat split. Qed.
+
   (** outputs are a function of (shape, dtype, effective key) only: any two calls, however
       key/seed were supplied, that do not raise and have the same effective key agree *)
   Theorem output_function_of_shape_dtype_key :
@@ -180,11 +189,14 @@ Definition obs_eqb (a b : obs_t) : bool :=
   | _, _ => false
   end.
 
-(** a call: (sampler, nested?, shapes, dtype, positional?, key, seed) *)
-Definition rcall : Type := nat * bool * list (list nat) * nat * bool * option zkey * option Z.
+(** a call: (sampler, nested?, shapes, dtype, passing mode, key, seed)
+    mode 0: key / seed by keyword; 1: both positional; 2: key last positional, seed by keyword *)
+Definition rcall : Type := nat * bool * list (list nat) * nat * nat * option zkey * option Z.
 Definition run_rcall t_prng t_split t_gen (c : rcall) : obs_t :=
-  let '(fn, nested, shs, d, positional, key, seed) := c in
+  let '(fn, nested, shs, d, mode, key, seed) := c in
   let sh := if nested then Nested (list nat) shs else Flat (list nat) (hd [] shs) in
-  code_rres (if positional
-             then tfun_alt fn t_prng t_split t_gen sh d (Some key) (Some seed) None None
-             else tfun_alt fn t_prng t_split t_gen sh d None None key seed).
+  code_rres (match mode with
+             | 0 => tfun_alt fn t_prng t_split t_gen sh d None None key seed
+             | 1 => tfun_alt fn t_prng t_split t_gen sh d (Some key) (Some seed) None None
+             | _ => tfun_alt fn t_prng t_split t_gen sh d (Some key) None None seed
+             end).
